@@ -43,7 +43,7 @@ type C06Case struct {
 var c06Keys = []string{"ka", "kb", "kc"}
 
 func c06Rules() string {
-	s := "rule \"r_who\" \"d\" salience 10\nbegin\n  S(@name)\n  lit(1, 2, 3)\n  ix = 0\n  zs = who.Sl[ix]\n  same(zs, who.Id)\n  if who.Kind == 0 {\n    return who.Id\n  }\nend\n"
+	s := "rule \"r_who\" \"d\" salience 10\nbegin\n  S(@name)\n  lit(1, 2, 3)\n  same(bv.Get(), who.Id)\n  same(nv.V(), who.Id)\n  ix = 0\n  zs = who.Sl[ix]\n  same(zs, who.Id)\n  if who.Kind == 0 {\n    return who.Id\n  }\nend\n"
 	for i, k := range c06Keys {
 		s += fmt.Sprintf("rule \"r_%s\" \"d\" salience %d\nbegin\n  same(%s.Id, who.Id)\n  gatei(who.Id)\n  same(%s.Id, who.Id)\n  %s.Out = who.Id\n  if who.Kind == 0 {\n    return %s.Id\n  }\nend\n", k, 5-i, k, k, k, k)
 	}
@@ -85,7 +85,7 @@ var c06Methods = []string{"Execute", "ExecuteConcurrent", "ExecuteMixModel", "Ex
 func init() {
 	register(&Prop{
 		ID:   "C06",
-		Rule: "request histories on pools of size (1,2),(1,3),(2,3),(2,4),(3,6): start request (unique id, payload objects injected under a non-empty subset of three key names plus an identity object, optionally also under the name kapi of an object the pool itself was constructed with, one of 17 pool execute methods) and release the k-th parked request; every request parks mid-rule on a Hold gate keyed by its id, so several requests overlap while rules are mid-execution; rule set: per key name a rule that compares <key>.Id with the request's identity before and after the gate, writes <key>.Out and returns <key>.Id; oracle per finished request: every rule over an injected key saw and returned the request's own id before and after the gate, every rule over a key the request did not inject failed (an entry there is data leaked from an overlapping or earlier request), a request that did not inject kapi sees the pool's own object or nothing, every payload's Out is 0 or the own id, and the result map copied at return equals the same map at the end of the history. Non-trivial: >= 2 requests were parked mid-rule simultaneously and the history has more requests than instances with different key sets; distinct by case hash",
+		Rule: "request histories on pools of size (1,2),(1,3),(2,3),(2,4),(3,6): start request (unique id, a struct and a named integer injected by value whose value-receiver methods hand out the id, payload objects injected under a non-empty subset of three key names plus an identity object, optionally also under the name kapi of an object the pool itself was constructed with, one of 17 pool execute methods) and release the k-th parked request; every request parks mid-rule on a Hold gate keyed by its id, so several requests overlap while rules are mid-execution; rule set: per key name a rule that compares <key>.Id with the request's identity before and after the gate, writes <key>.Out and returns <key>.Id; oracle per finished request: every rule over an injected key saw and returned the request's own id before and after the gate, every rule over a key the request did not inject failed (an entry there is data leaked from an overlapping or earlier request), a request that did not inject kapi sees the pool's own object or nothing, every payload's Out is 0 or the own id, and the result map copied at return equals the same map at the end of the history. Non-trivial: >= 2 requests were parked mid-rule simultaneously and the history has more requests than instances with different key sets; distinct by case hash",
 		New:  func() interface{} { return &C06Case{} },
 		Gen: func(t *rapid.T) interface{} {
 			c := &C06Case{}
@@ -138,6 +138,7 @@ func init() {
 		Check: func(ci interface{}, x *Ctx) {
 			c := ci.(*C06Case)
 			h := newPoolHarness()
+			h.byValue = true
 			h.max = int(c.PoolMax)
 			p, err := engine.NewGenginePool(c.PoolMin, c.PoolMax, c.EM, c06Rules(), c06Apis(h))
 			if err != nil {
@@ -361,7 +362,7 @@ func c06Stress(x *Ctx, c *C06Case, h *poolHarness, names []string) {
 				if (mix>>3)&3 == 1 {
 					keys = append(keys, "kapi")
 				}
-				data := map[string]interface{}{"who": &Payload{Id: id, Sl: []int64{id}}}
+				data := map[string]interface{}{"who": &Payload{Id: id, Sl: []int64{id}}, "bv": ByVal{Id: id}, "nv": NamedInt(id)}
 				pls := map[string]*Payload{}
 				for _, key := range keys {
 					pls[key] = &Payload{Id: id}
